@@ -3,16 +3,16 @@
 import glob, json, os, re
 VERIF = os.path.dirname(os.path.dirname(os.path.abspath(__file__)))
 rows = []
-for d in sorted(glob.glob(os.path.join(VERIF, "seeded", "*", "[AB]"))):
+for d in sorted(glob.glob(os.path.join(VERIF, "seeded", "*", "[A-H]"))):
     meta = json.load(open(os.path.join(d, "meta.json")))
     rp = os.path.join(d, "result.json")
     res = json.load(open(rp)) if os.path.exists(rp) else None
     pid = os.path.basename(os.path.dirname(d))
     files = sorted(set(re.findall(r"^diff --git a/(\S+)", open(os.path.join(d, "patch.diff")).read(), flags=re.M)))
     summ = re.sub(r"\s+", " ", meta.get("summary", ""))
-    summ = (summ[:170] + "…") if len(summ) > 170 else summ
+    summ = (summ[:130] + "…") if len(summ) > 130 else summ
     trig = re.sub(r"\s+", " ", meta.get("trigger", ""))
-    trig = (trig[:110] + "…") if len(trig) > 110 else trig
+    trig = (trig[:90] + "…") if len(trig) > 90 else trig
     if res is None:
         how, others = "not run", ""
     else:
